@@ -182,6 +182,28 @@ def run(ctx, shard):
                         V(f"difference:{nm}", f"{odt!r} {nm} {other!r} = {got} ns; instants differ by {n - m}", dict(case, m=m), got, n - m)
                 except Exception as ex:  # noqa: BLE001
                     ctx.exc(ex); V(f"difference-raised:{exc_key(ex)}", f"difference raised {ex!r}", dict(case, m=m), repr(ex))
+        # differences when the two offsets are more than 24 h apart (the local days differ by two): sweep the time of day
+        if it % 3 == 0:
+            for (oa, ob) in ((64800, -64800), (50400, -39600), (-43200, 50400), (64800, -25200), (-64800, 30600), (rng.randint(30000, 64800), -rng.randint(30000, 64800))):
+                try:
+                    A_ = i.with_offset(Offset.from_seconds(oa), cal)
+                except Exception as ex:  # noqa: BLE001  (edge of the calendar's range)
+                    ctx.exc(ex); continue
+                for dm in (0, 1, -1, 45 * 60 * 10**9, -45 * 60 * 10**9, DAY, -DAY, DAY + 1, rng.randint(-2 * DAY, 2 * DAY), rng.randrange(-48, 49) * 1800 * 10**9):
+                    m2 = n + dm
+                    if not (IMIN + 3 * DAY <= m2 <= IMAX - 3 * DAY): continue
+                    try:
+                        B_ = ins(m2).with_offset(Offset.from_seconds(ob), rng.choice(cals[:3]))
+                    except Exception as ex:  # noqa: BLE001
+                        ctx.exc(ex); continue
+                    ctx.ev(); ctx.count("difference"); ctx.key(("diff-wide", cid, (dm > 0) - (dm < 0), abs(dm) >= DAY))
+                    for nm, fn, want in (("A-B", lambda: A_ - B_, n - m2), ("B-A", lambda: B_ - A_, m2 - n)):
+                        try:
+                            dur = fn()
+                            if dur.to_nanoseconds() != want or dur != Duration.from_nanoseconds(want):
+                                V("difference-wide-offsets", f"{A_!r} / {B_!r} ({nm}, offsets {oa} s and {ob} s): difference {dur.to_nanoseconds()} ns (normal form equal: {dur == Duration.from_nanoseconds(want)}); the instants are {want} ns apart", dict(case, oa=oa, ob=ob, dm=dm), dur.to_nanoseconds(), want)
+                        except Exception as ex:  # noqa: BLE001
+                            ctx.exc(ex); V(f"difference-raised:{exc_key(ex)}", f"difference raised {ex!r}", dict(case, oa=oa, ob=ob, dm=dm), repr(ex))
         # zoned
         for z in rng.sample(zones, 4):
             c4 = dict(case, zone=z.id)
@@ -220,6 +242,32 @@ def run(ctx, shard):
                 exp_off = z.get_utc_offset(ins(e_ns))
                 if ns_of(r.to_instant()) != e_ns or r.calendar is not cal or r.zone is not z or r.offset != exp_off:
                     V("zoned-add-duration", f"ZonedDateTime({z.id}) + {dn} ns: instant {ns_of(r.to_instant())} (exp {e_ns}), calendar {r.calendar.id}, offset {r.offset.seconds} (zone says {exp_off.seconds})", dict(c4, dur=dn))
+        # ZonedClock over an auto-advancing clock: whatever it returns must be self-consistent (offset = zone offset at its own instant)
+        if it % 5 == 0:
+            from pyoda_time import ZonedClock
+            from pyoda_time.testing import FakeClock
+            z = rng.choice(zones)
+            step_ = rng.choice([1, 7, 1800 * 10**9, 3600 * 10**9])
+            start_ = n
+            try:   # start a few ticks before the zone's next transition so that reads straddle it
+                zi_ = z.get_zone_interval(ins(n))
+                if zi_.has_end and ns_of(zi_.end) - 4 * step_ > IMIN:
+                    start_ = ns_of(zi_.end) - rng.randint(1, 4) * step_ + rng.choice([0, 0, 1]) * (step_ > 1)
+            except Exception as ex:  # noqa: BLE001
+                ctx.exc(ex)
+            fc = FakeClock(ins(start_), Duration.from_nanoseconds(step_))
+            zc = ZonedClock(fc, z, cal)
+            ctx.key(("zoned-clock", z.id, step_))
+            for _ in range(10):
+                try:
+                    o_ = zc.get_current_offset_date_time(); zd = zc.get_current_zoned_date_time()
+                except Exception as ex:  # noqa: BLE001
+                    ctx.exc(ex); break
+                ctx.ev(); ctx.count("zoned")
+                for nm, v_ in (("offset_date_time", o_), ("zoned_date_time", zd)):
+                    inst_ = v_.to_instant()
+                    if v_.offset != z.get_utc_offset(inst_) or local_of(v_.local_date_time) != ns_of(inst_) + v_.offset.seconds * 10**9 or v_.calendar is not cal:
+                        V(f"zoned-clock-inconsistent:{nm}", f"ZonedClock({z.id}).get_current_{nm}() = {v_!r}: its offset {v_.offset.seconds} s is not the zone's offset at its own instant ({z.get_utc_offset(inst_).seconds} s) or local != instant + offset", dict(case, zone=z.id))
         if it < 2:
             ctx.sample({"kind": "odt", "cal": cid, "n": n, "off": os_})
 
